@@ -84,15 +84,15 @@ std::vector<i64> S_set(int w, int r, bool with_nan, bool with_int_min)
   for( i64 a : anchors() ) for( int d = -r; d <= r; ++d ) add(static_cast<i128>(a) + d);
   // "rich" members: many significant bits spread over the whole word (alternating / nibble / byte patterns and
   // 53-bit mantissas of irrational constants) at every magnitude, both signs. They complement the few-bit shapes above.
-  if( w >= 3 )
+  if( w >= 4 )
     for( u64 pat : { 0x5555555555555555ull, 0x3333333333333333ull, 0x0f0f0f0f0f0f0f0full, 0x00ff00ff00ff00ffull, 0x6db6db6db6db6db6ull,
                      0x6487ed5110b4611aull /* pi */, 0x5a827999fcef3242ull /* sqrt 2 */, 0x4f1bbcdcbfa53e0aull /* golden ratio */ } )
-      for( int sh = 0; sh <= 62; sh += (w >= 6 ? 1 : 3) ) for( int d = -2; d <= 2; ++d ) { i128 v = static_cast<i128>(pat >> sh) + d; add(v); add(-v); }
+      for( int sh = 0; sh <= 62; sh += (w >= 6 ? 1 : 3) ) for( int d = (w >= 6 ? -2 : -1); d <= (w >= 6 ? 2 : 1); ++d ) { i128 v = static_cast<i128>(pat >> sh) + d; add(v); add(-v); }
   // multiples of 2^64 / q for small q (where a multiplication by q wraps modulo 2^64), +-2
-  if( w >= 3 )
-    for( int q : { 3, 5, 6, 7, 9, 10, 11, 12, 13, 15, 25, 45, 90, 100, 180, 360 } ) for( int k = 1; k < q && k <= 12; ++k )
+  if( w >= 4 )
+    for( int q : { 3, 5, 6, 7, 9, 10, 11, 12, 13, 15, 25, 45, 90, 100, 180, 360 } ) for( int k = 1; k < q && k <= (w >= 6 ? 12 : 4); ++k )
       { u128 v = (static_cast<u128>(1) << 64) * static_cast<u128>(k) / static_cast<u128>(q); if( v >= (static_cast<u128>(1) << 63) ) break;
-        for( int d = -2; d <= 2; ++d ) { add(static_cast<i128>(v) + d); add(-static_cast<i128>(v) + d); } }
+        for( int d = (w >= 6 ? -2 : -1); d <= (w >= 6 ? 2 : 1); ++d ) { add(static_cast<i128>(v) + d); add(-static_cast<i128>(v) + d); } }
   if( with_nan ) { out.push_back(FX_NAN); out.push_back(-FX_NAN); }
   if( with_int_min ) out.push_back(INT64_MIN);
   std::sort(out.begin(), out.end());
